@@ -8,6 +8,7 @@ mod mon;
 mod verbs;
 mod verbs_assets;
 mod verbs_fault;
+mod verbs_mt;
 mod verbs_mdl;
 
 use json::J;
